@@ -7,16 +7,6 @@ Open Scope string_scope.
 
 (* ---- small list facts --------------------------------------------------- *)
 
-Lemma nodup_app {A} (a b : list A) :
-  NoDup a -> NoDup b -> (forall x, In x a -> ~ In x b) -> NoDup (a ++ b).
-Proof.
-  induction a as [|x r IH]; intros Ha Hb Hd; cbn; [assumption|].
-  inversion Ha as [|? ? Hn Hr]; subst. constructor.
-  - intros Hin. apply in_app_or in Hin. destruct Hin as [Hin|Hin]; [contradiction|].
-    apply (Hd x); [left; reflexivity|assumption].
-  - apply IH; [assumption|assumption|]. intros y Hy. apply Hd. right. assumption.
-Qed.
-
 Lemma dict_get_app {V} k (v : V) (a b : list (N * V)) :
   dict_get k a = Some v -> dict_get k (a ++ b) = Some v.
 Proof.
@@ -166,8 +156,9 @@ Proof.
   intros H. exists (x :: r), cells, t'. auto.
 Qed.
 
-(* the main statement with TRCL: for every entry of the expanded dictionary
-   (a parsed card or a copy made for a cell with TRCL) *)
+(* the main statement with TRCL, no guard: for every flagged entry of the
+   expanded dictionary (a parsed card or the copy made for a literal of a cell
+   with TRCL) that bounds a surviving converted cell *)
 Theorem bc_designates_present_same_locus_trcl cfg cards tcells t cells t' surfs bcs k e :
   skip_bc cfg = false ->
   parse_cards cards [] = Ok t ->
@@ -176,15 +167,39 @@ Theorem bc_designates_present_same_locus_trcl cfg cards tcells t cells t' surfs 
   In (k, e) t' -> (e_flag e = "*" \/ e_flag e = "+") ->
   (exists c, In c (converted cells) /\
              survives (negb (skip_dedup cfg)) (number_items t') c /\ bounds c k) ->
-  (skip_dedup cfg = true \/ smallest_dup (number_items t') k) ->
-  In (kind_of (e_flag e), k) bcs /\ In (k, e_first e) surfs.
+  let k' := rep (negb (skip_dedup cfg)) (number_items t') k in
+  In (kind_of (e_flag e), k') bcs /\ count_key k' bcs = 1%nat /\ In (k', e_first e) surfs.
 Proof.
-  intros Hs Hp Ha Hrun Hin Hf Hc Hg.
+  intros Hs Hp Ha Hrun Hin Hf Hc.
   destruct (run_t_unfold _ _ _ _ Hrun) as [t0 [cells0 [t0' [Hp0 [Ha0 Hfin]]]]].
   rewrite Hp in Hp0. inversion Hp0; subst t0. rewrite Ha in Ha0. inversion Ha0; subst cells0 t0'.
   pose proof (parsed_keys_distinct _ _ Hp) as Hnd.
   destruct (expanded_table _ _ _ _ Hnd Ha) as [Hnd' _].
   eapply finish_designates; eauto.
+Qed.
+
+(* every entry written designates a written SURF carrying the descriptor of a
+   flagged surface (card or copy, whose flag is that of a parsed card) of the
+   entry's kind; no two entries designate the same SURF *)
+Theorem bc_entries_designate_written_trcl cfg cards tcells t cells t' surfs bcs :
+  skip_bc cfg = false ->
+  parse_cards cards [] = Ok t ->
+  apply_trcls tcells t (N.succ (max_key t)) = Ok (cells, t') ->
+  run_t cfg cards tcells = Ok (surfs, bcs) ->
+  NoDup (map snd bcs) /\
+  forall kd k', In (kd, k') bcs ->
+    exists k e, In (k, e) t' /\ inherits t e /\ e_flag e <> "" /\
+      (e_flag e = "*" -> kd = Reflection) /\ (e_flag e = "+" -> kd = Cosinus) /\
+      rep (negb (skip_dedup cfg)) (number_items t') k = k' /\ In (k', e_first e) surfs.
+Proof.
+  intros Hs Hp Ha Hrun.
+  destruct (run_t_unfold _ _ _ _ Hrun) as [t0 [cells0 [t0' [Hp0 [Ha0 Hfin]]]]].
+  rewrite Hp in Hp0. inversion Hp0; subst t0. rewrite Ha in Ha0. inversion Ha0; subst cells0 t0'.
+  pose proof (parsed_keys_distinct _ _ Hp) as Hnd.
+  destruct (expanded_table _ _ _ _ Hnd Ha) as [Hnd' [_ Hinh]].
+  destruct (finish_sound _ _ _ _ _ Hs Hnd' Hfin) as [Hn Hall]. split; [assumption|].
+  intros kd k' Hin. destruct (Hall kd k' Hin) as [k [e [He [Hf [H1 [H2 [Hr Hsf]]]]]]].
+  exists k, e. split; [assumption|]. split; [eauto|]. auto.
 Qed.
 
 (* no flagged card: no entry, whatever the cells and their TRCL *)
@@ -205,10 +220,10 @@ Proof.
       unfold entry_of at 1. cbn [fst snd]. rewrite (Hall k e (or_introl eq_refl)). cbn.
       apply IH. intros k' e' Hin. eapply Hall. right. exact Hin.
     - intros k e Hin. rewrite (Hall k e Hin). split; [left; reflexivity|congruence]. }
-  unfold finish in Hfin.
+  unfold finish in Hfin. cbv zeta in Hfin.
   destruct (geometry (negb (skip_dedup cfg)) t' (converted cells)); [|discriminate].
   destruct (skip_bc cfg); [inversion Hfin; reflexivity|].
-  rewrite Hbc in Hfin. inversion Hfin. reflexivity.
+  rewrite Hbc in Hfin. cbn in Hfin. inversion Hfin. reflexivity.
 Qed.
 
 (* a flagged macrobody stops the run, with TRCL cells too *)
@@ -225,20 +240,45 @@ Proof.
   eapply macrobody_flag_stops_finish; eauto. rewrite Ht. apply in_or_app. left. exact Hin.
 Qed.
 
-(* a literal of a converted cell with TRCL naming a flagged surface: the copy
-   has its own entry of the flag's kind, and (under the guard, for the copy)
-   is a written SURF with the transformed descriptor *)
-Theorem trcl_copy_has_entry cfg cards tcells surfs bcs c l :
+(* coincident surfaces (cards or copies) flagged differently, representative
+   written: ValueError *)
+Theorem conflicting_flags_rejected_trcl cfg cards tcells t cells t' surfs k1 e1 k2 e2 :
   skip_bc cfg = false ->
-  run_t cfg cards tcells = Ok (surfs, bcs) ->
-  In c tcells -> tc_trcl c = true -> In l (tc_lits c) ->
-  exists t' e k',
-    dict_get (Z.abs_N (l_z l)) t' = Some e /\
-    In (k', mkE (e_flag e) (e_mcnp e) (l_cls l) (l_aux l)) t' /\
-    ((e_flag e = "*" \/ e_flag e = "+") -> In (kind_of (e_flag e), k') bcs).
+  parse_cards cards [] = Ok t -> proper t ->
+  apply_trcls tcells t (N.succ (max_key t)) = Ok (cells, t') ->
+  geometry (negb (skip_dedup cfg)) t' (converted cells) = Ok surfs ->
+  In (k1, e1) t' -> e_flag e1 = "*" -> In (k2, e2) t' -> e_flag e2 = "+" ->
+  rep (negb (skip_dedup cfg)) (number_items t') k1 =
+    rep (negb (skip_dedup cfg)) (number_items t') k2 ->
+  In (rep (negb (skip_dedup cfg)) (number_items t') k1) (map fst surfs) ->
+  run_t cfg cards tcells = Err EValue.
 Proof.
-  intros Hs Hrun Hc Htr Hl.
+  intros Hs Hp Hpr Ha Egeo H1 Hf1 H2 Hf2 Hrep Hused.
+  pose proof (parsed_keys_distinct _ _ Hp) as Hnd.
+  destruct (expanded_table _ _ _ _ Hnd Ha) as [Hnd' [Hsub Hinh]].
+  assert (Hpr' : proper t').
+  { intros k e Hin. destruct (Hinh k e Hin) as [k0 [e0 [Hin0 [Hf Hm]]]].
+    rewrite Hf, Hm. eapply Hpr; eauto. }
+  unfold run_t. rewrite Hp. destruct t as [|x r].
+  - cbn in Ha. exfalso. destruct (apply_trcls_ext _ _ _ _ _ Ha) as [ext [Ht [_ [_ Hi]]]].
+    cbn in Ht. subst t'. destruct (Hi _ _ H1) as [k0 [e0 [[] _]]].
+  - rewrite Ha. eapply (finish_conflict cfg t' (converted cells) surfs k1 e1 k2 e2); assumption.
+Qed.
+
+(* every literal of a cell with TRCL gets a copy in the dictionary that
+   carries the flag of the surface it names and the transformed descriptor *)
+Theorem trcl_copy_in_table cfg cards tcells out c l :
+  run_t cfg cards tcells = Ok out ->
+  In c tcells -> tc_trcl c = true -> In l (tc_lits c) ->
+  exists t cells t' e k',
+    parse_cards cards [] = Ok t /\
+    apply_trcls tcells t (N.succ (max_key t)) = Ok (cells, t') /\
+    dict_get (Z.abs_N (l_z l)) t' = Some e /\
+    In (k', mkE (e_flag e) (e_mcnp e) (l_cls l) (l_aux l)) t'.
+Proof.
+  intros Hrun Hc Htr Hl.
   destruct (run_t_unfold _ _ _ _ Hrun) as [t [cells [t' [Hp [Ha Hfin]]]]].
+  exists t, cells, t'.
   assert (Hcopy : exists e k', dict_get (Z.abs_N (l_z l)) t' = Some e /\
             In (k', mkE (e_flag e) (e_mcnp e) (l_cls l) (l_aux l)) t').
   { clear Hfin Hp Hrun. remember (N.succ (max_key t)) as key eqn:Hk. clear Hk.
@@ -258,60 +298,23 @@ Proof.
         inversion Ha; subst cells t2. eapply IH; eauto.
       + destruct (apply_trcls r t key) as [[cells0 t2]|] eqn:Ea; [|discriminate].
         inversion Ha; subst cells t2. eapply IH; eauto. }
-  destruct Hcopy as [e [k' [H1 H2]]]. exists t', e, k'. split; [assumption|]. split; [assumption|].
-  intros Hf. unfold finish in Hfin.
-  destruct (geometry (negb (skip_dedup cfg)) t' (converted cells)); [|discriminate].
-  rewrite Hs in Hfin. destruct (bc_entries t') as [bcs'|] eqn:Ebc; [|discriminate].
-  inversion Hfin; subst.
-  destruct (bc_kind t' bcs k' _ Ebc H2) as [Hstar [Hplus _]]. cbn [e_flag] in *.
-  destruct Hf as [Hf|Hf]; rewrite Hf; cbn; auto.
+  destruct Hcopy as [e [k' [H1 H2]]]. exists e, k'. auto.
 Qed.
 
-(* ---- the statement is false without the guard, TRCL witnesses ------------ *)
+(* ---- the TRCL decks that failed before the repair ------------------------ *)
 
-(* *2 PX 0 (class 7) used only by a cell with TRCL=(1 0 0) (copy: class 8):
-   entries for 2 and for the copy 6, SURF 6 but no SURF 2, with and without
-   de-duplication: one flagged surface that bounds a converted cell yields two
-   entries, one of them for a surface that is not written *)
+(* *2 PX 0 (class 7) used only by a cell with TRCL=(1 0 0) (copy 7: class 8) *)
 Definition w_trcl_cards : list scard :=
   [mkS "1" 1 5 []; mkS "4" 1 9 []; mkS "*2" 1 7 []].
 Definition w_trcl_cells : list tcell :=
   [mkC 1 true true [mkL (-1) 15 []; mkL 2 8 []; mkL (-4) 9 []]].
 
-Theorem bc_trcl_original_refuted :
-  forall sd, exists surfs,
-    run_t (mkCfg sd false) w_trcl_cards w_trcl_cells =
-      Ok (surfs, [(Reflection, 2%N); (Reflection, 7%N)]) /\
-    In (7%N, 8%N) surfs /\ ~ In 2%N (map fst surfs).
-Proof.
-  intros [].
-  - exists [(6, 15); (7, 8); (8, 9)]%N. split; [vm_compute; reflexivity|].
-    split; [right; left; reflexivity|]. cbn. intros [H|[H|[H|[]]]]; discriminate.
-  - exists [(4, 9); (6, 15); (7, 8)]%N. split; [vm_compute; reflexivity|].
-    split; [right; right; left; reflexivity|]. cbn. intros [H|[H|[H|[]]]]; discriminate.
-Qed.
-
-(* *2 PX 0 used by a cell with TRCL=(0 0 0) (the copy has the class of the
-   original) and by a plain cell, de-duplication on: the copy 7 is renamed to 2
-   yet keeps its entry *)
+(* *2 PX 0 used by a cell with TRCL=(0 0 0) and by a plain cell *)
 Definition w_copy_cards : list scard :=
   [mkS "1" 1 5 []; mkS "4" 1 9 []; mkS "*2" 1 7 []].
 Definition w_copy_cells : list tcell :=
   [mkC 1 true true [mkL (-1) 5 []; mkL 2 7 []; mkL (-4) 9 []];
    mkC 3 true false [mkL (-1) 0 []; mkL (-2) 0 []]].
-
-Theorem bc_trcl_copy_dedup_refuted :
-  exists surfs bcs,
-    run_t (mkCfg false false) w_copy_cards w_copy_cells = Ok (surfs, bcs) /\
-    In (Reflection, 7%N) bcs /\ ~ In 7%N (map fst surfs) /\
-    In (Reflection, 2%N) bcs /\ In (2%N, 7%N) surfs.
-Proof.
-  exists [(1, 5); (2, 7); (4, 9)]%N, [(Reflection, 2%N); (Reflection, 7%N)].
-  split; [vm_compute; reflexivity|].
-  split; [right; left; reflexivity|].
-  split; [cbn; intros [H|[H|[H|[]]]]; discriminate|].
-  split; [left; reflexivity|right; left; reflexivity].
-Qed.
 
 (* ---- decks without TRCL -------------------------------------------------- *)
 
@@ -340,116 +343,3 @@ Proof.
   rewrite apply_trcls_plain, converted_plain. reflexivity.
 Qed.
 
-(* ---- what the block never does (no guard) -------------------------------- *)
-
-(* every entry comes from a flagged entry of the dictionary *)
-Lemma bc_entry_key t l kd k :
-  bc_entries t = Ok l -> In (kd, k) l -> exists e, In (k, e) t /\ e_flag e <> "".
-Proof.
-  unfold bc_entries. intros H Hin. destruct (recuperate t) as [l0|] eqn:Er; [|discriminate].
-  assert (Hk : In k (map snd l)) by (apply in_map_iff; exists (kd, k); auto).
-  rewrite (conv_kinds_keys _ _ _ H), (recuperate_keys _ _ Er) in Hk.
-  apply in_map_iff in Hk. destruct Hk as [[k' e] [Hk Hf]]. cbn in Hk. subst k'.
-  apply filter_In in Hf. destruct Hf as [Hin' Hfl]. exists e. split; [assumption|].
-  cbn in Hfl. unfold flagged in Hfl. intros Hc. rewrite Hc in Hfl. discriminate.
-Qed.
-
-Lemma count_one_unique k l : forall a b,
-  count_key k l = 1%nat -> In (a, k) l -> In (b, k) l -> a = b.
-Proof.
-  unfold count_key. induction l as [|[kd k'] r IH]; intros a b Hc Ha Hb; [destruct Ha|].
-  cbn in Hc. destruct (N.eqb k' k) eqn:E.
-  - cbn in Hc. assert (Hz : List.length (filter (fun x => N.eqb (snd x) k) r) = 0%nat) by lia.
-    assert (Hno : forall x, In (x, k) r -> False).
-    { intros x Hx. assert (Hf : In (x, k) (filter (fun y => N.eqb (snd y) k) r)).
-      { apply filter_In. split; [assumption|]. cbn. apply N.eqb_refl. }
-      destruct (filter (fun y => N.eqb (snd y) k) r); [destruct Hf|discriminate]. }
-    destruct Ha as [Ha|Ha]; [|exfalso; eapply Hno; eauto].
-    destruct Hb as [Hb|Hb]; [|exfalso; eapply Hno; eauto].
-    congruence.
-  - destruct Ha as [Ha|Ha]; [inversion Ha; subst; rewrite N.eqb_refl in E; discriminate|].
-    destruct Hb as [Hb|Hb]; [inversion Hb; subst; rewrite N.eqb_refl in E; discriminate|].
-    eapply IH; eauto.
-Qed.
-
-(* ... and has the kind of that entry's flag *)
-Theorem bc_entry_sound t l kd k :
-  NoDup (map fst t) -> bc_entries t = Ok l -> In (kd, k) l ->
-  exists e, In (k, e) t /\ e_flag e <> "" /\
-    (e_flag e = "*" -> kd = Reflection) /\ (e_flag e = "+" -> kd = Cosinus).
-Proof.
-  intros Hnd H Hin. destruct (bc_entry_key _ _ _ _ H Hin) as [e [He Hf]].
-  exists e. split; [assumption|]. split; [assumption|].
-  pose proof (bc_one_per_flag t l k e Hnd H He) as Hc.
-  destruct (String.eqb (e_flag e) "") eqn:E0; [apply String.eqb_eq in E0; contradiction|].
-  destruct (bc_kind t l k e H He) as [Hs [Hp _]].
-  split; intros Hfl.
-  - eapply count_one_unique; eauto.
-  - eapply count_one_unique; eauto.
-Qed.
-
-(* an entry never designates a written surface of another locus: when the
-   designated number is a SURF line at all, that line carries the descriptor
-   of the flagged surface (or copy) the entry was made for *)
-Lemma finish_never_other_locus cfg t cells surfs bcs kd k d :
-  NoDup (map fst t) -> finish cfg t cells = Ok (surfs, bcs) ->
-  In (kd, k) bcs -> In (k, d) surfs ->
-  exists e, In (k, e) t /\ d = e_first e /\ e_flag e <> "" /\
-    (e_flag e = "*" -> kd = Reflection) /\ (e_flag e = "+" -> kd = Cosinus).
-Proof.
-  intros Hnd Hfin Hb Hs. unfold finish in Hfin.
-  destruct (geometry (negb (skip_dedup cfg)) t cells) as [surfs'|] eqn:Egeo; [|discriminate].
-  destruct (skip_bc cfg).
-  - inversion Hfin; subst. destruct Hb.
-  - destruct (bc_entries t) as [bcs'|] eqn:Ebc; [|discriminate]. inversion Hfin; subst surfs' bcs'.
-    destruct (bc_entry_sound t bcs kd k Hnd Ebc Hb) as [e [He [Hf [H1 H2]]]].
-    exists e. split; [assumption|]. split; [|auto].
-    destruct (proj1 (written_surfaces_exact _ _ _ _ k d Egeo) Hs) as [Hd _].
-    rewrite (number_items_get t k e Hnd He) in Hd. inversion Hd. reflexivity.
-Qed.
-
-Theorem bc_never_other_locus cfg cards tcells t cells t' surfs bcs kd k d :
-  parse_cards cards [] = Ok t ->
-  apply_trcls tcells t (N.succ (max_key t)) = Ok (cells, t') ->
-  run_t cfg cards tcells = Ok (surfs, bcs) ->
-  In (kd, k) bcs -> In (k, d) surfs ->
-  exists e, In (k, e) t' /\ d = e_first e /\ inherits t e /\ e_flag e <> "" /\
-    (e_flag e = "*" -> kd = Reflection) /\ (e_flag e = "+" -> kd = Cosinus).
-Proof.
-  intros Hp Ha Hrun Hb Hs.
-  destruct (run_t_unfold _ _ _ _ Hrun) as [t0 [cells0 [t0' [Hp0 [Ha0 Hfin]]]]].
-  rewrite Hp in Hp0. inversion Hp0; subst t0. rewrite Ha in Ha0. inversion Ha0; subst cells0 t0'.
-  pose proof (parsed_keys_distinct _ _ Hp) as Hnd.
-  destruct (expanded_table _ _ _ _ Hnd Ha) as [Hnd' [_ Hinh]].
-  destruct (finish_never_other_locus _ _ _ _ _ _ _ _ Hnd' Hfin Hb Hs) as [e [He [Hd [Hf Hk]]]].
-  exists e. split; [assumption|]. split; [assumption|]. split; [eauto|]. split; assumption.
-Qed.
-
-(* the whole block of a deck with MCNP's flags only and no flagged macrobody:
-   the flagged cards in card order, then the copies of flagged surfaces in
-   cell and literal order *)
-Lemma proper_expanded t cells t' cs :
-  NoDup (map fst t) -> proper t ->
-  apply_trcls cs t (N.succ (max_key t)) = Ok (cells, t') -> proper t'.
-Proof.
-  intros Hnd Hp Ha k e Hin.
-  destruct (expanded_table _ _ _ _ Hnd Ha) as [_ [_ Hinh]].
-  destruct (Hinh k e Hin) as [k0 [e0 [Hin0 [Hf Hm]]]]. rewrite Hf, Hm. eapply Hp; eauto.
-Qed.
-
-Theorem run_t_block_exact cfg cards tcells t cells t' surfs bcs :
-  skip_bc cfg = false ->
-  parse_cards cards [] = Ok t -> proper t ->
-  apply_trcls tcells t (N.succ (max_key t)) = Ok (cells, t') ->
-  run_t cfg cards tcells = Ok (surfs, bcs) ->
-  bcs = flat_map entry_of t'.
-Proof.
-  intros Hs Hp Hpr Ha Hrun.
-  destruct (run_t_unfold _ _ _ _ Hrun) as [t0 [cells0 [t0' [Hp0 [Ha0 Hfin]]]]].
-  rewrite Hp in Hp0. inversion Hp0; subst t0. rewrite Ha in Ha0. inversion Ha0; subst cells0 t0'.
-  pose proof (parsed_keys_distinct _ _ Hp) as Hnd.
-  pose proof (proper_expanded _ _ _ _ Hnd Hpr Ha) as Hpr'.
-  unfold finish in Hfin.
-  destruct (geometry (negb (skip_dedup cfg)) t' (converted cells)); [|discriminate].
-  rewrite Hs, (bc_entries_exact t' Hpr') in Hfin. inversion Hfin. reflexivity.
-Qed.
